@@ -86,11 +86,19 @@ Section Enforce.
   (* ---------------------------------------------------------------- validity of the storage *)
   Definition ip_valid (n : nat) (ip : list Z) : Prop :=
     length ip = S n /\ (0 <= nth 0 ip 0)%Z /\ forall i, i < n -> (nth i ip 0 <= nth (S i) ip 0)%Z.
+  (* storage validity without any assumption on duplicate entries *)
+  Definition csr_valid0 (n : nat) (A : csr R) : Prop :=
+    ip_valid n (indptr A) /\ length (indices A) = length (data A) /\
+    (nth n (indptr A) 0 <= Z.of_nat (length (data A)))%Z /\
+    (forall i, i < n -> forall cv, In cv (csr_row A i) -> fst cv < n).
   Definition csr_valid (n : nat) (A : csr R) : Prop :=
     ip_valid n (indptr A) /\ length (indices A) = length (data A) /\
     (nth n (indptr A) 0 <= Z.of_nat (length (data A)))%Z /\
     (forall i, i < n -> forall cv, In cv (csr_row A i) -> fst cv < n) /\
     (forall i, i < n -> NoDup (map fst (csr_row A i))).
+  Lemma csr_valid_weaken n A : csr_valid n A -> csr_valid0 n A.
+  Proof. intros (H1 & H2 & H3 & H4 & _). split; [exact H1|]. split; [exact H2|]. split; [exact H3 | exact H4]. Qed.
+
 
   Lemma ip_mono n ip i j : ip_valid n ip -> i <= j -> j <= n -> (nth i ip 0 <= nth j ip 0)%Z.
   Proof.
@@ -121,7 +129,7 @@ Section Enforce.
     fold_left (fun acc k => upd acc k zero) (map Z.to_nat (row_positions ip (map Z.of_nat D))) dat.
 
   Lemma scatter_positions_ok n (A : csr R) D :
-    csr_valid n A -> (forall d, In d D -> d < n) ->
+    csr_valid0 n A -> (forall d, In d D -> d < n) ->
     np_scatter_const (data A) (row_positions (indptr A) (map Z.of_nat D)) zero
     = Some (zeroed_data (indptr A) D (data A)).
   Proof.
@@ -135,7 +143,7 @@ Section Enforce.
 
   (* exactly the union of the constrained rows' ranges is zeroed, nothing else is touched *)
   Theorem zeroed_data_spec n (A : csr R) D k :
-    csr_valid n A -> (forall d, In d D -> d < n) ->
+    csr_valid0 n A -> (forall d, In d D -> d < n) ->
     length (zeroed_data (indptr A) D (data A)) = length (data A) /\
     ((exists d, In d D /\ ipn (indptr A) d <= k < ipn (indptr A) (S d)) ->
        nth k (zeroed_data (indptr A) D (data A)) zero = zero) /\
@@ -162,7 +170,7 @@ Section Enforce.
     {| indptr := indptr A; indices := indices A; data := zeroed_data (indptr A) D (data A) |}.
 
   Lemma zeroed_row_in n (A : csr R) D i :
-    csr_valid n A -> (forall d, In d D -> d < n) -> In i D ->
+    csr_valid0 n A -> (forall d, In d D -> d < n) -> In i D ->
     csr_row (zeroed_csr A D) i = map (fun cv => (fst cv, zero)) (csr_row A i).
   Proof.
     intros HA HD Hi. unfold csr_row, zeroed_csr. simpl.
@@ -176,7 +184,7 @@ Section Enforce.
   Qed.
 
   Lemma zeroed_row_out n (A : csr R) D i :
-    csr_valid n A -> (forall d, In d D -> d < n) -> i < n -> ~ In i D ->
+    csr_valid0 n A -> (forall d, In d D -> d < n) -> i < n -> ~ In i D ->
     csr_row (zeroed_csr A D) i = csr_row A i.
   Proof.
     intros HA HD Hin Hi. unfold csr_row, zeroed_csr. simpl. f_equal.
@@ -305,7 +313,7 @@ Section Enforce.
   Lemma msetdiag_length (M : list (list (nat * R))) d : length (msetdiag o M d) = length M.
   Proof. apply map2_seq_length. Qed.
 
-  Lemma csr_nrows_valid n (A : csr R) : csr_valid n A -> csr_nrows A = n.
+  Lemma csr_nrows_valid n (A : csr R) : csr_valid0 n A -> csr_nrows A = n.
   Proof. intros ((Hl & _) & _). unfold csr_nrows. now rewrite Hl. Qed.
   Lemma mrow_csr_rows (A : csr R) i : i < csr_nrows A -> mrow (csr_rows A) i = csr_row A i.
   Proof.
@@ -321,7 +329,7 @@ Section Enforce.
   Hypothesis posf_ok : posf_correct.
 
   Lemma enforce_zeroed_ok n (A : csr R) D :
-    csr_valid n A -> (forall d, In d D -> d < n) -> enforce_zeroed o posf A D = Some (zeroed_csr A D).
+    csr_valid0 n A -> (forall d, In d D -> d < n) -> enforce_zeroed o posf A D = Some (zeroed_csr A D).
   Proof.
     intros HA HD. unfold enforce_zeroed. rewrite (posf_ok n) by (auto; apply HA). simpl.
     rewrite (scatter_positions_ok n) by assumption. reflexivity.
@@ -339,8 +347,8 @@ Section Enforce.
        mrow (enforced_rows A D diag) i = csr_row A i \/
        (has_col (csr_row A i) i = false /\ mrow (enforced_rows A D diag) i = csr_row A i ++ [(i, zero)])).
   Proof.
-    intros HA HD.
-    assert (Hn : csr_nrows (zeroed_csr A D) = n) by (unfold csr_nrows; simpl; apply (csr_nrows_valid n A HA)).
+    intros HA HD. pose proof (csr_valid_weaken n A HA) as HA0.
+    assert (Hn : csr_nrows (zeroed_csr A D) = n) by (unfold csr_nrows; simpl; apply (csr_nrows_valid n A HA0)).
     assert (Hlen : @length (list (nat * R)) (csr_rows (zeroed_csr A D)) = n) by (unfold csr_rows; now rewrite map_length, seq_length, Hn).
     split; [|split; [|split]].
     - unfold enforce_matrix. rewrite (enforce_zeroed_ok n) by assumption. reflexivity.
@@ -396,7 +404,7 @@ Section Enforce.
     assert (HS : split_ok n I D) by (eapply init_bc_split; eauto).
     split; [assumption|]. destruct HS as (NI & ND & BI & BD & P).
     split; [|split; [|split]].
-    - unfold enforce. rewrite (csr_nrows_valid n A HA), E. simpl.
+    - unfold enforce. rewrite (csr_nrows_valid n A (csr_valid_weaken n A HA)), E. simpl.
       destruct (enforce_matrix_spec n A D diag HA BD) as (-> & _). reflexivity.
     - unfold enforce_rhs. now rewrite vset_length.
     - intros d Hd. unfold enforce_rhs. destruct (In_nth D d 0 Hd) as (p & Hp & <-).
@@ -454,7 +462,7 @@ Section Enforce.
     destruct (enforce_matrix_spec n A D diag HA BD) as (EA & _ & HinA & _).
     destruct (enforce_matrix_spec n B D zero HB BD) as (EB & _ & HinB & _).
     split; [|split; [|split; [|split]]].
-    - unfold enforce_eig. rewrite (csr_nrows_valid n A HA), E. simpl. rewrite EA. simpl. rewrite EB. reflexivity.
+    - unfold enforce_eig. rewrite (csr_nrows_valid n A (csr_valid_weaken n A HA)), E. simpl. rewrite EA. simpl. rewrite EB. reflexivity.
     - exact HinA.
     - intros d Hd y. rewrite (HinB d Hd y). ring.
     - intros d Hd j. rewrite dense_entry_as_dot, (HinB d Hd). ring.
